@@ -4,6 +4,7 @@
   seeded.py import <wt> <name>       copy <wt>/mutant into /verif/seeded/<name>
   seeded.py verify <name>            scratch worktree: tests pass with the change, demo passes without and fails with it
   seeded.py run <name> [Cxx ...]     apply to /repo, run the quick checks (default: the property it breaks), undo; record who caught it
+  seeded.py run-scratch <name> [Cxx ...]  the same against a scratch worktree of /repo (nothing in /repo or /verif/evidence is touched)
   seeded.py table                    print the detection table
 """
 import json
@@ -103,6 +104,42 @@ def verify(name):
     return m["verified_ok"]
 
 
+def run_scratch(name, props):
+    """Same as run(), but the change is applied to a scratch worktree of /repo and the checks are pointed at it (VERIF_REPO), with evidence and
+    replays going to a scratch directory: /repo and /verif/evidence are never touched, so several of these can run side by side."""
+    m = load_meta(name)
+    if not props:
+        props = [m["property"]]
+    patch = os.path.join(SEEDED, name, "patch.diff")
+    wt = "/tmp/sr-" + name
+    out = "/tmp/sr-out-" + name
+    sh("git -C %s worktree remove --force %s" % (REPO, wt))
+    shutil.rmtree(wt, ignore_errors=True)
+    shutil.rmtree(out, ignore_errors=True)
+    os.makedirs(out)
+    rc, o = sh("git -C %s worktree add --detach %s HEAD" % (REPO, wt))
+    det = {}
+    try:
+        rc, o = sh("git apply %s" % patch, cwd=wt)
+        if rc != 0:
+            print("patch does not apply:", o)
+            return 2
+        for p in props:
+            rc, o = sh("VERIF_REPO=%s VERIF_OUT=%s VERIF_JOBS=%s python3 %s/run.py check %s --tier %s" % (wt, out, os.environ.get("SEEDED_JOBS", "4"), VERIF, p, os.environ.get("SEEDED_TIER", "quick")))
+            viol = [l for l in o.split("\n") if l.startswith("VIOLATION")]
+            keys = [l.strip() for l in o.split("\n") if l.strip().startswith("key:")]
+            det[p] = {"exit": rc, "violations": len(viol), "keys": keys[:6]}
+            print("%s on %s: exit=%d violations=%d %s" % (p, name, rc, len(viol), keys[:3]))
+    finally:
+        sh("git -C %s worktree remove --force %s" % (REPO, wt))
+        shutil.rmtree(wt, ignore_errors=True)
+        shutil.rmtree(out, ignore_errors=True)
+    m = load_meta(name)
+    m.setdefault("detection", {}).update(det)
+    save_meta(name, m)
+    return 0
+
+
 def run(name, props):
     m = load_meta(name)
     if not props:
@@ -154,5 +191,7 @@ if __name__ == "__main__":
         sys.exit(0 if verify(sys.argv[2]) else 1)
     elif c == "run":
         sys.exit(run(sys.argv[2], sys.argv[3:]))
+    elif c == "run-scratch":
+        sys.exit(run_scratch(sys.argv[2], sys.argv[3:]))
     elif c == "table":
         table()
